@@ -150,10 +150,16 @@ class Prop:
             ctr[0] += 1
             return ctr[0]
 
+        collide = c.random() < 0.3 and vk != "none"
+
         def item(validating):
             x = r.random()
             if validating and x < invalid_rate:
                 return {"t": "bad"}
+            if validating and collide and x > 0.92:
+                # a coercible spelling of a (possibly) current member: the two readings
+                # of "the same operations on validated items" part company here
+                return {"t": "spell", "v": r.choice(space)}
             if validating and vk != "none" and x < invalid_rate + 0.15:
                 return {"t": "spell", "v": fresh()}
             if x > 0.85:
@@ -333,6 +339,7 @@ class Prop:
                 continue
             # ---------------- ordinary ops
             ret_m = None
+            collision = self.collides(op, before)
             if k == "pop":
                 val_exc, set_exc = None, ("KeyError" if not m else None)
             else:
@@ -381,6 +388,14 @@ class Prop:
                                         % (describe(op), en, kind), i)
                 env.token(k, "fail", en, injected, pattern)
                 continue
+            if collision and after != m:
+                # a coercible spelling whose validated form is already a member (or occurs
+                # twice in the argument): "validate only what will be added" and "apply the
+                # built-in operation to the validated items" differ; either result is
+                # accepted, but the event laws below must hold for what actually happened
+                env.probe("collision-either-reading")
+                m.clear()
+                m.update(after)
             if after != m:
                 raise Violation("C07.contents", "%s on %r: set gives %r, TraitSet holds %r"
                                 % (describe(op), before, m, after), i)
@@ -415,6 +430,24 @@ class Prop:
                                     "mutating the copy changed the set it was copied from", i)
             env.token(k, "ok", changed, shape, pattern)
             env.cover(k, pattern, vk)
+
+    @staticmethod
+    def collides(op, before):
+        """Does a coercible spelling in the argument validate onto a current
+        member or onto another item of the argument?"""
+        specs = list(op.get("vs", ()))
+        for a in op.get("args", ()):
+            specs.extend(a)
+        if "v" in op:
+            specs.append(op["v"])
+        plain_vals = {s["v"] for s in specs if s["t"] == "int"}
+        seen = set()
+        for s in specs:
+            if s["t"] == "spell":
+                if s["v"] in before or s["v"] in plain_vals or s["v"] in seen:
+                    return True
+                seen.add(s["v"])
+        return False
 
     @staticmethod
     def overlap(op, before):
